@@ -26,11 +26,19 @@ def _shift_place(p, lo):
     return q
 
 
+_POFF = [0]
+
+
 def _shift_op(o, lo):
     if "cp" in o:
         return {"cp": _shift_place(o["cp"], lo)}
     if "mv" in o:
         return {"mv": _shift_place(o["mv"], lo)}
+    c = o.get("c")
+    if c is not None and "promoted" in c and _POFF[0]:
+        c2 = dict(c)
+        c2["promoted"] = c["promoted"] + _POFF[0]
+        return {"c": c2}
     return o
 
 
@@ -103,6 +111,8 @@ def inlined(fx, fn, depth=3, stop=(), _seen=None, _cache={}):
     blocks = [dict(b, origin=b.get("origin", fn.path)) for b in copy.deepcopy(fn.blocks)]
     locals_ = list(fn.locals)
     debug = list(fn.debug)
+    proms = list(fn.raw.get("promoted", []))
+    rets = list(fn.raw.get("inlined_rets", []))
     n_own = len(blocks)
     if depth > 0:
         for bi in range(n_own):
@@ -119,6 +129,11 @@ def inlined(fx, fn, depth=3, stop=(), _seen=None, _cache={}):
             gi = inlined(fx, g, depth - 1, stop, seen)
             lo = len(locals_)
             locals_.extend(gi.locals)
+            # the callee's return place(s): an Err put there is an error the caller receives (its handling is a
+            # separate R-ERR obligation at the call site), so path predicates may treat it as a failing exit
+            if gi.locals and gi.locals[0]["ty"].startswith(("core::result::Result<", "core::option::Option<core::result::Result<")):
+                rets.append(lo)
+            rets.extend(x + lo for x in gi.raw.get("inlined_rets", []))
             for d in gi.debug:
                 debug.append({"name": d["name"], "pl": _shift_place(d["pl"], lo)})
             # layout: [entry block][callee blocks...][return block]
@@ -131,8 +146,13 @@ def inlined(fx, fn, depth=3, stop=(), _seen=None, _cache={}):
                     estmts.append({"lhs": {"l": lo + i + 1}, "rv": {"k": "use", "op": a}, "span": t["span"]})
             blocks.append({"stmts": estmts, "term": {"k": "goto", "target": bo, "span": t["span"]}, "origin": fn.path,
                            "inline_entry": p})
-            for b in gi.blocks:
-                blocks.append(_shift_block(b, lo, bo, ret_block, b.get("origin", p)))
+            _POFF[0] = len(proms)
+            try:
+                for b in gi.blocks:
+                    blocks.append(_shift_block(b, lo, bo, ret_block, b.get("origin", p)))
+            finally:
+                _POFF[0] = 0
+            proms.extend(gi.raw.get("promoted", []))
             if ret_block is not None:
                 blocks.append({"stmts": [{"lhs": t["dest"], "rv": {"k": "use", "op": {"mv": {"l": lo}}}, "span": t["span"]}],
                                "term": {"k": "goto", "target": t["target"], "span": t["span"]}, "origin": fn.path,
@@ -142,6 +162,8 @@ def inlined(fx, fn, depth=3, stop=(), _seen=None, _cache={}):
     raw["blocks"] = blocks
     raw["locals"] = locals_
     raw["debug"] = debug
+    raw["promoted"] = proms
+    raw["inlined_rets"] = rets
     out = facts.Fn(raw, fn.crate)
     out.inlined_from = fn.path
     out.n_own = n_own
